@@ -272,7 +272,7 @@ class BatchWorld(World):
                 geom = trainer_world._Geom(cc)
                 layer, conn, nrn = T._build_layer(cc, geom)
                 tr = T._build_trainer(cc)
-                tr.register_cell("c", layer.cell)
+                T._register(tr, layer.cell, cc)
                 layer.train()
                 tr.train()
                 reps.append((cc, geom, layer, conn, nrn, tr))
